@@ -285,26 +285,26 @@ func stripTime(l string) string {
 
 // logProbes maps reach-probe names to substrings of frp's own log lines.
 var logProbes = map[string]string{
-	"frps.pool_full":          "work connection pool is full",
-	"frps.workconn_timeout":   "timeout trying to get work connection",
-	"frps.heartbeat_timeout":  "heartbeat timeout",
-	"frps.replaced":           "Replaced by client",
-	"frps.get_workconn_pool":  "get work connection from pool",
-	"frps.port_reserved":      "port reserved",
-	"frps.login":              "client login info",
-	"frpc.login_ok":           "login to server success",
-	"frpc.reconnect":          "try to connect to server",
-	"frpc.proxy_started":      "start proxy success",
-	"frpc.proxy_start_err":    "start error",
-	"frpc.heartbeat_timeout":  "heartbeat timeout",
-	"frps.invalid_workconn":   "invalid NewWorkConn",
-	"frps.invalid_ping":       "received invalid ping",
-	"frps.panic_recovered":    "panic error",
-	"frps.no_ctl_for_runid":   "No client control found",
-	"frps.http_404":           "not found",
-	"frps.visitor_err":        "register visitor conn error",
-	"frps.newproxy_err":       "new proxy",
-	"frps.ctl_exit":           "client exit success",
+	"frps.pool_full":           "work connection pool is full",
+	"frps.workconn_timeout":    "timeout trying to get work connection",
+	"frps.heartbeat_timeout":   "heartbeat timeout",
+	"frps.replaced":            "Replaced by client",
+	"frps.get_workconn_pool":   "get work connection from pool",
+	"frps.port_reserved":       "port reserved",
+	"frps.login":               "client login info",
+	"frpc.login_ok":            "login to server success",
+	"frpc.reconnect":           "try to connect to server",
+	"frpc.proxy_started":       "start proxy success",
+	"frpc.proxy_start_err":     "start error",
+	"frpc.heartbeat_timeout":   "heartbeat timeout",
+	"frps.invalid_workconn":    "invalid NewWorkConn",
+	"frps.invalid_ping":        "received invalid ping",
+	"frps.panic_recovered":     "panic error",
+	"frps.no_ctl_for_runid":    "No client control found",
+	"frps.http_404":            "not found",
+	"frps.visitor_err":         "register visitor conn error",
+	"frps.newproxy_err":        "new proxy",
+	"frps.ctl_exit":            "client exit success",
 	"frps.workconn_registered": "new work connection registered",
 }
 
